@@ -448,7 +448,9 @@ def run_ub(ctx, lines):
 # capacity of their containers; harness/drv_relaxfill.cpp, builds @asan (any sanitizer report = CRASH) and @poison (its own
 # allocator fills fresh AND released blocks; the four fills must give bitwise identical results).
 RF_RELAX = [("damped_jacobi", 0), ("spai0", 0), ("spai1", 0), ("gauss_seidel", 0), ("ilu0", 0), ("iluk", 1), ("iluk", 2), ("iluk", 3), ("iluk", 4),
-            ("ilup", 1), ("ilup", 2), ("ilut", 2), ("ilut", 4), ("chebyshev", 0)]
+            ("ilup", 1), ("ilup", 2), ("ilut", 2), ("ilut", 4), ("chebyshev", 0),
+            # fractional fill factors: the two passes of ilut (array sizes, then per-row budgets) must round lenL*p / lenU*p the same way
+            ("ilut", "3/2"), ("ilut", "5/4"), ("ilut", "7/4")]
 RF_FILLS = ["00", "FF", "AA", "rand"]
 
 def _stencil_rows(r, dims, full):
@@ -503,7 +505,7 @@ def rf_cases(tier, seed):
         rhs = [F(r.randint(-9, 9), r.choice([1, 2, 4])) for _ in range(n)]
         x0 = [F(r.randint(-4, 4), r.choice([1, 2])) for _ in range(n)]
         for rx, p in RF_RELAX:
-            out.append("R%d rf %s %d %s %s %s" % (k, rx, p, _crs(n, n, rows), fmt_vec(rhs), fmt_vec(x0))); k += 1
+            out.append("R%d rf %s %s %s %s %s" % (k, rx, p, _crs(n, n, rows), fmt_vec(rhs), fmt_vec(x0))); k += 1
     return out
 
 def run_rf(ctx, lines):
